@@ -278,6 +278,38 @@ class CaseGen:
             ents.append((key, self.value_item(fty, slot)))
         return ('map', ents)
 
+    def wire_item(self, t, v, lossy=0.3):
+        """like value_item, but as a platform might send it: over-long names / icons, parameter lists
+        with unknown entries, rp icon present — the documented lossy members"""
+        rng = self.rng
+        r = self.s.res(t)
+        if "filtered" in r and rng.random() < lossy:
+            ents = [self.value_item(r["elem"], ('r', [a, ('s', r["deLit"].encode())])) for a in v[1]]
+            for _ in range(rng.randint(1, 4)):
+                alg = rng.choice([-257, -35, -36, -37, -65535, 1, 0, -9])
+                ty = rng.choice(["public-key", "public-key", "webauthn.get", ""])
+                ents.insert(rng.randint(0, len(ents)), ('map', [(('text', b"alg"), int_item(alg)), (('text', b"type"), ('text', ty.encode()))]))
+            return ('arr', ents)
+        if "vec" in r:
+            return ('arr', [self.wire_item(r["elem"], x, lossy) for x in v[1]])
+        if "fields" in r:
+            ents = []
+            for i, (f, slot) in enumerate(zip(r["fields"], v[1])):
+                key = ('u', r["indexed"] + i) if "indexed" in r else ('text', f["key"].encode())
+                m = f["mode"]["m"]
+                if slot is None:
+                    if f["ser"] == "never" and rng.random() < lossy:
+                        ents.append((('text', rng.choice([f["key"]] + f["aliases"]).encode()), ('text', rand_utf8(rng, rng.choice([0, 10, 128, 129, 300])))))
+                    elif m == "skipLong" and rng.random() < lossy:
+                        ents.append((key, ('text', rand_utf8(rng, f["mode"]["cap"] + rng.choice([1, 2, 50])))))
+                    continue
+                if m == "trunc" and rng.random() < lossy:
+                    ents.append((key, ('text', rand_utf8(rng, f["mode"]["cap"] + rng.choice([-1, 0, 1, 2, 3, 40])))))
+                    continue
+                ents.append((key, self.wire_item(f["ty"], slot, lossy)))
+            return ('map', ents)
+        return self.value_item(t, v)
+
     def rand_unknown_item(self, depth=3):
         rng = self.rng
         c = rng.randrange(12 if depth > 0 else 8)
